@@ -348,7 +348,7 @@ def c02(version, routes, ops, timeout, res):
         mine = [fr for fr in replies + earlier if _py_eq(fr[1], uid)]
         if kind == "result":
             # the observation lists the fields of the result object that are set: a JSON null in the reply is "not set"
-            ok = any(fr[0] == 3 and same_value(_drop_nulls(_snake(fr[2])), detail) for fr in mine)
+            ok = any(fr[0] == 3 and same_value(_drop_nulls(_snake(fr[2])), _drop_nulls(detail)) for fr in mine)
             if not ok:
                 bad.append(("foreign-result:%s" % jkey(uid)[:40],
                             "caller %d (id %r) returned %r although no CALLRESULT with its id carries that payload" % (k, uid, detail)))
